@@ -1,222 +1,18 @@
+import TabulaModel.Gen.GlyphNames
 /-!
 # `glyphNameToUnicode` (font/encoding.go): glyph name → Unicode
 
 The table `parseEncodingDifferences` (font/type1.go) and `NewCustomEncodingFromGlyphs` look
-glyph names up in: the part of the Adobe Glyph List the package carries (205 names). It is a
-copy of the Go map literal (keys as byte strings, in source order; a Go map literal cannot
-repeat a key), tied to the code by op `c07.glyph` over every name of the harness's
+glyph names up in: the part of the Adobe Glyph List the package carries. The table itself is
+`Gen/GlyphNames.lean`, regenerated from the map literal of package font on every check run
+(located by content, keys as byte strings, in source order; a Go map literal cannot repeat a
+key), and additionally compared name by name through op `c07.glyph` over the harness's
 independent Adobe Glyph List excerpt and over unknown names. Core Lean only.
 -/
 namespace Tabula.GlyphNames
 
 /-- the entries of the map literal: name (bytes) and rune -/
-def table : List (List Nat × Nat) := [
-  ([115, 112, 97, 99, 101], 0x0020), -- space
-  ([101, 120, 99, 108, 97, 109], 0x0021), -- exclam
-  ([113, 117, 111, 116, 101, 100, 98, 108], 0x0022), -- quotedbl
-  ([110, 117, 109, 98, 101, 114, 115, 105, 103, 110], 0x0023), -- numbersign
-  ([100, 111, 108, 108, 97, 114], 0x0024), -- dollar
-  ([112, 101, 114, 99, 101, 110, 116], 0x0025), -- percent
-  ([97, 109, 112, 101, 114, 115, 97, 110, 100], 0x0026), -- ampersand
-  ([113, 117, 111, 116, 101, 115, 105, 110, 103, 108, 101], 0x0027), -- quotesingle
-  ([113, 117, 111, 116, 101, 114, 105, 103, 104, 116], 0x2019), -- quoteright
-  ([113, 117, 111, 116, 101, 108, 101, 102, 116], 0x2018), -- quoteleft
-  ([113, 117, 111, 116, 101, 100, 98, 108, 108, 101, 102, 116], 0x201c), -- quotedblleft
-  ([113, 117, 111, 116, 101, 100, 98, 108, 114, 105, 103, 104, 116], 0x201d), -- quotedblright
-  ([112, 97, 114, 101, 110, 108, 101, 102, 116], 0x0028), -- parenleft
-  ([112, 97, 114, 101, 110, 114, 105, 103, 104, 116], 0x0029), -- parenright
-  ([97, 115, 116, 101, 114, 105, 115, 107], 0x002a), -- asterisk
-  ([112, 108, 117, 115], 0x002b), -- plus
-  ([99, 111, 109, 109, 97], 0x002c), -- comma
-  ([104, 121, 112, 104, 101, 110], 0x002d), -- hyphen
-  ([112, 101, 114, 105, 111, 100], 0x002e), -- period
-  ([115, 108, 97, 115, 104], 0x002f), -- slash
-  ([122, 101, 114, 111], 0x0030), -- zero
-  ([111, 110, 101], 0x0031), -- one
-  ([116, 119, 111], 0x0032), -- two
-  ([116, 104, 114, 101, 101], 0x0033), -- three
-  ([102, 111, 117, 114], 0x0034), -- four
-  ([102, 105, 118, 101], 0x0035), -- five
-  ([115, 105, 120], 0x0036), -- six
-  ([115, 101, 118, 101, 110], 0x0037), -- seven
-  ([101, 105, 103, 104, 116], 0x0038), -- eight
-  ([110, 105, 110, 101], 0x0039), -- nine
-  ([99, 111, 108, 111, 110], 0x003a), -- colon
-  ([115, 101, 109, 105, 99, 111, 108, 111, 110], 0x003b), -- semicolon
-  ([108, 101, 115, 115], 0x003c), -- less
-  ([101, 113, 117, 97, 108], 0x003d), -- equal
-  ([103, 114, 101, 97, 116, 101, 114], 0x003e), -- greater
-  ([113, 117, 101, 115, 116, 105, 111, 110], 0x003f), -- question
-  ([97, 116], 0x0040), -- at
-  ([98, 114, 97, 99, 107, 101, 116, 108, 101, 102, 116], 0x005b), -- bracketleft
-  ([98, 97, 99, 107, 115, 108, 97, 115, 104], 0x005c), -- backslash
-  ([98, 114, 97, 99, 107, 101, 116, 114, 105, 103, 104, 116], 0x005d), -- bracketright
-  ([97, 115, 99, 105, 105, 99, 105, 114, 99, 117, 109], 0x005e), -- asciicircum
-  ([117, 110, 100, 101, 114, 115, 99, 111, 114, 101], 0x005f), -- underscore
-  ([103, 114, 97, 118, 101], 0x0060), -- grave
-  ([98, 114, 97, 99, 101, 108, 101, 102, 116], 0x007b), -- braceleft
-  ([98, 97, 114], 0x007c), -- bar
-  ([98, 114, 97, 99, 101, 114, 105, 103, 104, 116], 0x007d), -- braceright
-  ([97, 115, 99, 105, 105, 116, 105, 108, 100, 101], 0x007e), -- asciitilde
-  ([65], 0x0041), -- A
-  ([66], 0x0042), -- B
-  ([67], 0x0043), -- C
-  ([68], 0x0044), -- D
-  ([69], 0x0045), -- E
-  ([70], 0x0046), -- F
-  ([71], 0x0047), -- G
-  ([72], 0x0048), -- H
-  ([73], 0x0049), -- I
-  ([74], 0x004a), -- J
-  ([75], 0x004b), -- K
-  ([76], 0x004c), -- L
-  ([77], 0x004d), -- M
-  ([78], 0x004e), -- N
-  ([79], 0x004f), -- O
-  ([80], 0x0050), -- P
-  ([81], 0x0051), -- Q
-  ([82], 0x0052), -- R
-  ([83], 0x0053), -- S
-  ([84], 0x0054), -- T
-  ([85], 0x0055), -- U
-  ([86], 0x0056), -- V
-  ([87], 0x0057), -- W
-  ([88], 0x0058), -- X
-  ([89], 0x0059), -- Y
-  ([90], 0x005a), -- Z
-  ([97], 0x0061), -- a
-  ([98], 0x0062), -- b
-  ([99], 0x0063), -- c
-  ([100], 0x0064), -- d
-  ([101], 0x0065), -- e
-  ([102], 0x0066), -- f
-  ([103], 0x0067), -- g
-  ([104], 0x0068), -- h
-  ([105], 0x0069), -- i
-  ([106], 0x006a), -- j
-  ([107], 0x006b), -- k
-  ([108], 0x006c), -- l
-  ([109], 0x006d), -- m
-  ([110], 0x006e), -- n
-  ([111], 0x006f), -- o
-  ([112], 0x0070), -- p
-  ([113], 0x0071), -- q
-  ([114], 0x0072), -- r
-  ([115], 0x0073), -- s
-  ([116], 0x0074), -- t
-  ([117], 0x0075), -- u
-  ([118], 0x0076), -- v
-  ([119], 0x0077), -- w
-  ([120], 0x0078), -- x
-  ([121], 0x0079), -- y
-  ([122], 0x007a), -- z
-  ([69, 117, 114, 111], 0x20ac), -- Euro
-  ([98, 117, 108, 108, 101, 116], 0x2022), -- bullet
-  ([100, 97, 103, 103, 101, 114], 0x2020), -- dagger
-  ([100, 97, 103, 103, 101, 114, 100, 98, 108], 0x2021), -- daggerdbl
-  ([101, 108, 108, 105, 112, 115, 105, 115], 0x2026), -- ellipsis
-  ([101, 109, 100, 97, 115, 104], 0x2014), -- emdash
-  ([101, 110, 100, 97, 115, 104], 0x2013), -- endash
-  ([116, 114, 97, 100, 101, 109, 97, 114, 107], 0x2122), -- trademark
-  ([99, 111, 112, 121, 114, 105, 103, 104, 116], 0x00a9), -- copyright
-  ([114, 101, 103, 105, 115, 116, 101, 114, 101, 100], 0x00ae), -- registered
-  ([99, 101, 110, 116], 0x00a2), -- cent
-  ([115, 116, 101, 114, 108, 105, 110, 103], 0x00a3), -- sterling
-  ([121, 101, 110], 0x00a5), -- yen
-  ([102, 108, 111, 114, 105, 110], 0x0192), -- florin
-  ([115, 101, 99, 116, 105, 111, 110], 0x00a7), -- section
-  ([112, 97, 114, 97, 103, 114, 97, 112, 104], 0x00b6), -- paragraph
-  ([100, 101, 103, 114, 101, 101], 0x00b0), -- degree
-  ([101, 120, 99, 108, 97, 109, 100, 111, 119, 110], 0x00a1), -- exclamdown
-  ([113, 117, 101, 115, 116, 105, 111, 110, 100, 111, 119, 110], 0x00bf), -- questiondown
-  ([103, 117, 105, 108, 108, 101, 109, 111, 116, 108, 101, 102, 116], 0x00ab), -- guillemotleft
-  ([103, 117, 105, 108, 108, 101, 109, 111, 116, 114, 105, 103, 104, 116], 0x00bb), -- guillemotright
-  ([103, 117, 105, 108, 115, 105, 110, 103, 108, 108, 101, 102, 116], 0x2039), -- guilsinglleft
-  ([103, 117, 105, 108, 115, 105, 110, 103, 108, 114, 105, 103, 104, 116], 0x203a), -- guilsinglright
-  ([65, 103, 114, 97, 118, 101], 0x00c0), -- Agrave
-  ([65, 97, 99, 117, 116, 101], 0x00c1), -- Aacute
-  ([65, 99, 105, 114, 99, 117, 109, 102, 108, 101, 120], 0x00c2), -- Acircumflex
-  ([65, 116, 105, 108, 100, 101], 0x00c3), -- Atilde
-  ([65, 100, 105, 101, 114, 101, 115, 105, 115], 0x00c4), -- Adieresis
-  ([65, 114, 105, 110, 103], 0x00c5), -- Aring
-  ([65, 69], 0x00c6), -- AE
-  ([67, 99, 101, 100, 105, 108, 108, 97], 0x00c7), -- Ccedilla
-  ([69, 103, 114, 97, 118, 101], 0x00c8), -- Egrave
-  ([69, 97, 99, 117, 116, 101], 0x00c9), -- Eacute
-  ([69, 99, 105, 114, 99, 117, 109, 102, 108, 101, 120], 0x00ca), -- Ecircumflex
-  ([69, 100, 105, 101, 114, 101, 115, 105, 115], 0x00cb), -- Edieresis
-  ([73, 103, 114, 97, 118, 101], 0x00cc), -- Igrave
-  ([73, 97, 99, 117, 116, 101], 0x00cd), -- Iacute
-  ([73, 99, 105, 114, 99, 117, 109, 102, 108, 101, 120], 0x00ce), -- Icircumflex
-  ([73, 100, 105, 101, 114, 101, 115, 105, 115], 0x00cf), -- Idieresis
-  ([69, 116, 104], 0x00d0), -- Eth
-  ([78, 116, 105, 108, 100, 101], 0x00d1), -- Ntilde
-  ([79, 103, 114, 97, 118, 101], 0x00d2), -- Ograve
-  ([79, 97, 99, 117, 116, 101], 0x00d3), -- Oacute
-  ([79, 99, 105, 114, 99, 117, 109, 102, 108, 101, 120], 0x00d4), -- Ocircumflex
-  ([79, 116, 105, 108, 100, 101], 0x00d5), -- Otilde
-  ([79, 100, 105, 101, 114, 101, 115, 105, 115], 0x00d6), -- Odieresis
-  ([79, 115, 108, 97, 115, 104], 0x00d8), -- Oslash
-  ([85, 103, 114, 97, 118, 101], 0x00d9), -- Ugrave
-  ([85, 97, 99, 117, 116, 101], 0x00da), -- Uacute
-  ([85, 99, 105, 114, 99, 117, 109, 102, 108, 101, 120], 0x00db), -- Ucircumflex
-  ([85, 100, 105, 101, 114, 101, 115, 105, 115], 0x00dc), -- Udieresis
-  ([89, 97, 99, 117, 116, 101], 0x00dd), -- Yacute
-  ([84, 104, 111, 114, 110], 0x00de), -- Thorn
-  ([103, 101, 114, 109, 97, 110, 100, 98, 108, 115], 0x00df), -- germandbls
-  ([97, 103, 114, 97, 118, 101], 0x00e0), -- agrave
-  ([97, 97, 99, 117, 116, 101], 0x00e1), -- aacute
-  ([97, 99, 105, 114, 99, 117, 109, 102, 108, 101, 120], 0x00e2), -- acircumflex
-  ([97, 116, 105, 108, 100, 101], 0x00e3), -- atilde
-  ([97, 100, 105, 101, 114, 101, 115, 105, 115], 0x00e4), -- adieresis
-  ([97, 114, 105, 110, 103], 0x00e5), -- aring
-  ([97, 101], 0x00e6), -- ae
-  ([99, 99, 101, 100, 105, 108, 108, 97], 0x00e7), -- ccedilla
-  ([101, 103, 114, 97, 118, 101], 0x00e8), -- egrave
-  ([101, 97, 99, 117, 116, 101], 0x00e9), -- eacute
-  ([101, 99, 105, 114, 99, 117, 109, 102, 108, 101, 120], 0x00ea), -- ecircumflex
-  ([101, 100, 105, 101, 114, 101, 115, 105, 115], 0x00eb), -- edieresis
-  ([105, 103, 114, 97, 118, 101], 0x00ec), -- igrave
-  ([105, 97, 99, 117, 116, 101], 0x00ed), -- iacute
-  ([105, 99, 105, 114, 99, 117, 109, 102, 108, 101, 120], 0x00ee), -- icircumflex
-  ([105, 100, 105, 101, 114, 101, 115, 105, 115], 0x00ef), -- idieresis
-  ([101, 116, 104], 0x00f0), -- eth
-  ([110, 116, 105, 108, 100, 101], 0x00f1), -- ntilde
-  ([111, 103, 114, 97, 118, 101], 0x00f2), -- ograve
-  ([111, 97, 99, 117, 116, 101], 0x00f3), -- oacute
-  ([111, 99, 105, 114, 99, 117, 109, 102, 108, 101, 120], 0x00f4), -- ocircumflex
-  ([111, 116, 105, 108, 100, 101], 0x00f5), -- otilde
-  ([111, 100, 105, 101, 114, 101, 115, 105, 115], 0x00f6), -- odieresis
-  ([111, 115, 108, 97, 115, 104], 0x00f8), -- oslash
-  ([117, 103, 114, 97, 118, 101], 0x00f9), -- ugrave
-  ([117, 97, 99, 117, 116, 101], 0x00fa), -- uacute
-  ([117, 99, 105, 114, 99, 117, 109, 102, 108, 101, 120], 0x00fb), -- ucircumflex
-  ([117, 100, 105, 101, 114, 101, 115, 105, 115], 0x00fc), -- udieresis
-  ([121, 97, 99, 117, 116, 101], 0x00fd), -- yacute
-  ([116, 104, 111, 114, 110], 0x00fe), -- thorn
-  ([121, 100, 105, 101, 114, 101, 115, 105, 115], 0x00ff), -- ydieresis
-  ([102, 114, 97, 99, 116, 105, 111, 110], 0x2044), -- fraction
-  ([111, 110, 101, 104, 97, 108, 102], 0x00bd), -- onehalf
-  ([111, 110, 101, 113, 117, 97, 114, 116, 101, 114], 0x00bc), -- onequarter
-  ([116, 104, 114, 101, 101, 113, 117, 97, 114, 116, 101, 114, 115], 0x00be), -- threequarters
-  ([109, 105, 110, 117, 115], 0x2212), -- minus
-  ([109, 117, 108, 116, 105, 112, 108, 121], 0x00d7), -- multiply
-  ([100, 105, 118, 105, 100, 101], 0x00f7), -- divide
-  ([112, 108, 117, 115, 109, 105, 110, 117, 115], 0x00b1), -- plusminus
-  ([110, 111, 116, 101, 113, 117, 97, 108], 0x2260), -- notequal
-  ([108, 101, 115, 115, 101, 113, 117, 97, 108], 0x2264), -- lessequal
-  ([103, 114, 101, 97, 116, 101, 114, 101, 113, 117, 97, 108], 0x2265), -- greaterequal
-  ([109, 117], 0x00b5), -- mu
-  ([112, 97, 114, 116, 105, 97, 108, 100, 105, 102, 102], 0x2202), -- partialdiff
-  ([115, 117, 109, 109, 97, 116, 105, 111, 110], 0x2211), -- summation
-  ([112, 114, 111, 100, 117, 99, 116], 0x220f), -- product
-  ([112, 105], 0x03c0), -- pi
-  ([105, 110, 116, 101, 103, 114, 97, 108], 0x222b), -- integral
-  ([79, 109, 101, 103, 97], 0x03a9), -- Omega
-  ([105, 110, 102, 105, 110, 105, 116, 121], 0x221e), -- infinity
-  ([114, 97, 100, 105, 99, 97, 108], 0x221a), -- radical
-  ([97, 112, 112, 114, 111, 120, 101, 113, 117, 97, 108], 0x2248) -- approxequal
-]
+def table : List (List Nat × Nat) := Tabula.Gen.GlyphNames.table
 
 /-- `glyphNameToUnicode[name]`: `none` = the map has no such key -/
 def glyphRune (name : List Nat) : Option Nat :=
